@@ -33,6 +33,8 @@ NOISE = {
     "blank2": ["", ""],
     "comment_blank": ["#c", ""],
     "spaces": ["   "],
+    "icomment": ["  # indented comment"],
+    "tcomment": ["\t#c"],
 }
 FOLLOWS = {
     "nothing": [],
@@ -66,9 +68,9 @@ AXES_THOROUGH = [
     ("sep", [" ", "   ", "\t", " \t"]),
     ("lead", ["", "  ", "\t"]),
     ("trail", ["", "  ", "\t"]),
-    ("before", ["none", "blank", "comment", "blank2", "comment_blank", "spaces"]),
-    ("between", ["none", "blank", "comment", "blank2", "comment_blank", "spaces"]),
-    ("after", ["none", "blank", "comment", "blank2", "comment_blank", "spaces"]),
+    ("before", ["none", "blank", "comment", "blank2", "comment_blank", "spaces", "icomment", "tcomment"]),
+    ("between", ["none", "blank", "comment", "blank2", "comment_blank", "spaces", "icomment", "tcomment"]),
+    ("after", ["none", "blank", "comment", "blank2", "comment_blank", "spaces", "icomment", "tcomment"]),
     ("follows", ["nothing", "P", "O", "custom", "P_O", "P_empty"]),
     ("pre", ["VWCP", "VWPC", "VCWP", "VWC"]),
     ("eol", ["\n", "\r\n"]),
